@@ -193,49 +193,78 @@ type slot struct {
 	Name    string
 	IsActor bool
 	Make    func(from string, id string, ref any) M
+	// OnVictim: the carrier is a genuine document of the victim's host h1 that points at a
+	// collection or page served by the attacker (without an id of its own), which embeds
+	// the reference. Nothing in the anonymous collection may be trusted as h1's.
+	OnVictim bool
+}
+
+// anonOn serves a collection document without an id at a fresh URL of the attacker.
+func anonOn(from string, doc M) string {
+	serial++
+	return serveOn(from, fmt.Sprintf("/anon-coll%d", serial), doc)
 }
 
 func slots() []slot {
 	return []slot{
-		{"post.inReplyTo", false, func(from, id string, ref any) M { d := note(id, from, "carrier"); d["inReplyTo"] = ref; return d }},
-		{"post.attributedTo", true, func(from, id string, ref any) M { d := note(id, from, "carrier"); d["attributedTo"] = ref; return d }},
-		{"post.audience", true, func(from, id string, ref any) M { d := note(id, from, "carrier"); d["audience"] = []any{ref}; return d }},
-		{"post.replies.item", false, func(from, id string, ref any) M {
+		{Name: "post.inReplyTo", IsActor: false, Make: func(from, id string, ref any) M { d := note(id, from, "carrier"); d["inReplyTo"] = ref; return d }},
+		{Name: "post.attributedTo", IsActor: true, Make: func(from, id string, ref any) M { d := note(id, from, "carrier"); d["attributedTo"] = ref; return d }},
+		{Name: "post.audience", IsActor: true, Make: func(from, id string, ref any) M { d := note(id, from, "carrier"); d["audience"] = []any{ref}; return d }},
+		{Name: "post.replies.item", IsActor: false, Make: func(from, id string, ref any) M {
 			d := note(id, from, "carrier")
 			d["replies"] = M{"type": "Collection", "id": id + "/replies", "totalItems": 1.0, "items": []any{ref}}
 			return d
 		}},
-		{"activity.object", false, func(from, id string, ref any) M {
+		{Name: "activity.object", IsActor: false, Make: func(from, id string, ref any) M {
 			return M{"type": "Announce", "id": id, "actor": from + "/users/mallory", "object": ref, "published": "2019-01-01T00:00:00Z"}
 		}},
-		{"activity.actor", true, func(from, id string, ref any) M {
+		{Name: "activity.actor", IsActor: true, Make: func(from, id string, ref any) M {
 			return M{"type": "Announce", "id": id, "actor": ref, "object": note(id+"/obj", from, "own note"), "published": "2019-01-01T00:00:00Z"}
 		}},
-		{"activity.object.create-wrapped-victim-id", false, func(from, id string, ref any) M {
+		{Name: "activity.object.create-wrapped-victim-id", IsActor: false, Make: func(from, id string, ref any) M {
 			// Lemmy style: the object is an inline Create whose own (unverified) id names the victim's host
 			return M{"type": "Announce", "id": id, "actor": from + "/users/mallory", "published": "2019-01-01T00:00:00Z",
 				"object": M{"type": "Create", "id": h1 + "/acts/claimed", "actor": from + "/users/mallory", "object": ref}}
 		}},
-		{"outbox.item.create-wrapped", false, func(from, id string, ref any) M {
+		{Name: "outbox.item.create-wrapped", IsActor: false, Make: func(from, id string, ref any) M {
 			d := actor(id, from, "carrier actor")
 			d["outbox"] = M{"type": "OrderedCollection", "id": id + "/outbox", "totalItems": 1.0,
 				"orderedItems": []any{M{"type": "Announce", "id": id + "/act", "actor": id, "published": "2019-01-01T00:00:00Z",
 					"object": M{"type": "Create", "id": h1 + "/acts/claimed2", "actor": id, "object": ref}}}}
 			return d
 		}},
-		{"create.object", false, func(from, id string, ref any) M {
+		{Name: "create.object", IsActor: false, Make: func(from, id string, ref any) M {
 			return M{"type": "Create", "id": id, "actor": from + "/users/mallory", "object": ref, "published": "2019-01-01T00:00:00Z"}
 		}},
-		{"actor.outbox.item", false, func(from, id string, ref any) M {
+		{Name: "actor.outbox.item", IsActor: false, Make: func(from, id string, ref any) M {
 			d := actor(id, from, "carrier actor")
 			d["outbox"] = M{"type": "OrderedCollection", "id": id + "/outbox", "totalItems": 1.0,
 				"orderedItems": []any{M{"type": "Announce", "id": id + "/act", "actor": id, "object": ref, "published": "2019-01-01T00:00:00Z"}}}
 			return d
 		}},
-		{"collection.item", false, func(from, id string, ref any) M {
+		{Name: "collection.item", IsActor: false, Make: func(from, id string, ref any) M {
 			return M{"type": "OrderedCollection", "id": id, "totalItems": 1.0, "orderedItems": []any{ref}}
 		}},
-		{"collection.first", false, func(from, id string, ref any) M {
+		{Name: "victim-post.replies-url-to-anonymous-collection", IsActor: false, Make: func(from, id string, ref any) M {
+			d := note(id, h1, "genuine carrier")
+			d["replies"] = anonOn(from, M{"type": "Collection", "totalItems": 1.0, "items": []any{ref}})
+			return d
+		}, OnVictim: true},
+		{Name: "victim-actor.outbox-url-to-anonymous-collection", IsActor: false, Make: func(from, id string, ref any) M {
+			d := actor(id, h1, "genuine carrier actor")
+			d["outbox"] = anonOn(from, M{"type": "OrderedCollection", "totalItems": 1.0,
+				"orderedItems": []any{M{"type": "Announce", "id": id + "/act", "actor": id, "object": ref, "published": "2019-01-01T00:00:00Z"}}})
+			return d
+		}, OnVictim: true},
+		{Name: "victim-collection.first-url-to-anonymous-page", IsActor: false, Make: func(from, id string, ref any) M {
+			return M{"type": "OrderedCollection", "id": id, "totalItems": 1.0,
+				"first": anonOn(from, M{"type": "OrderedCollectionPage", "orderedItems": []any{ref}})}
+		}, OnVictim: true},
+		{Name: "victim-collection.next-url-to-anonymous-page", IsActor: false, Make: func(from, id string, ref any) M {
+			return M{"type": "OrderedCollection", "id": id, "totalItems": 2.0, "orderedItems": []any{V},
+				"next": anonOn(from, M{"type": "OrderedCollectionPage", "orderedItems": []any{ref}})}
+		}, OnVictim: true},
+		{Name: "collection.first", IsActor: false, Make: func(from, id string, ref any) M {
 			return M{"type": "OrderedCollection", "id": id, "totalItems": 1.0, "first": M{"type": "OrderedCollectionPage", "id": id + "/p", "partOf": id, "orderedItems": []any{ref}}}
 		}},
 	}
@@ -351,7 +380,11 @@ func runAttack(r *ev.Report, from string, sl slot, pr pres, warm string, cacheSi
 	uidrv.Reset()
 	jtp.VerifSetCacheSize(cacheSize)
 	ref := pr.Make(from, sl.IsActor)
-	carrierID := from + "/carrier"
+	carrierHost := from
+	if sl.OnVictim {
+		carrierHost = h1
+	}
+	carrierID := carrierHost + "/carrier"
 	doc := sl.Make(from, carrierID, ref)
 	w.Put(carrierID, world.JSON(doc))
 	c := attackCase{From: from, Slot: sl.Name, Presentation: pr.Name, Warm: warm}
@@ -401,16 +434,18 @@ func runAttack(r *ev.Report, from string, sl slot, pr pres, warm string, cacheSi
 	var decoded any
 	b, _ := json.Marshal(doc)
 	json.Unmarshal(b, &decoded)
-	src, _ := url.Parse(from + "/enclosing")
+	src, _ := url.Parse(carrierHost + "/enclosing")
 	run("pub.New(embedded, source=attacker)", func() any { return pub.New(decoded, src) })
 	run("pub.New(embedded, source=nil)", func() any { return pub.New(decoded, nil) })
 
-	// FetchUnknown level: (object, id) pairs with the stamp
+	// FetchUnknown level: (object, id) pairs with the stamp. The reference always sits in a
+	// document served by the attacker (for the on-victim slots: the anonymous collection).
+	attackerSrc, _ := url.Parse(from + "/enclosing")
 	for _, in := range []struct {
 		name  string
 		input any
 		src   *url.URL
-	}{{"FetchUnknown(ref, source=attacker)", refDecoded(ref), src}, {"FetchUnknown(ref, source=nil)", refDecoded(ref), nil}, {"FetchUnknown(ref, source=attacker) again", refDecoded(ref), src}} {
+	}{{"FetchUnknown(ref, source=attacker)", refDecoded(ref), attackerSrc}, {"FetchUnknown(ref, source=nil)", refDecoded(ref), nil}, {"FetchUnknown(ref, source=attacker) again", refDecoded(ref), attackerSrc}} {
 		func() {
 			defer func() {
 				if x := recover(); x != nil {
@@ -444,7 +479,7 @@ func refDecoded(ref any) any {
 
 func main() {
 	r := ev.New("C02", "model_checking",
-		"attack worlds: attacker host in {evil, h2} x 12 reference slots (inReplyTo, attributedTo, audience, reply item, activity object/actor, Create object, an inline Create wrapper with a claimed id, outbox item, collection item, first page) x 20 presentations of a forged copy of h1's note or actor "+
+		"attack worlds: attacker host in {evil, h2} x 16 reference slots (inReplyTo, attributedTo, audience, reply item, activity object/actor, Create object, an inline Create wrapper with a claimed id, outbox item, collection item, first page; and four where a genuine document of the victim's host points at a collection or page served by the attacker without an id) x 20 presentations of a forged copy of h1's note or actor "+
 			"(embedded copy, stubs, URL to a forging path, redirects to the victim / a third-host copy / relative, victim-host open redirect, open redirect used as id, id with :443 / upper case / userinfo / trailing dot / missing / wrong type, genuine URL) "+
 			"x warming history {cold, victim cached, reference cached, carrier fetched before; thorough: also every ordered pair of these} x cache size {1,2,128}; each through pub.New (by URL twice, embedded with attacker source, embedded without source) with every reachable item inspected, and through client.FetchUnknown three times; "+
 			"every object names its serving host in its visible text and in a stamp; distinct_nontrivial = attack cases (not the genuine-URL control)")
